@@ -77,7 +77,7 @@ def run(tier, seed):
         by_key = {t["file"] + "#" + t["type"]: t for t in types}
         consts = {(i["file"] + "#" + i["type"]): i["consts_wowm"] for i in items if i["role"] == "consts"}
         hreq, dreq, meta = [], [], []
-        nrand = 6 if tier == "quick" else 64
+        nrand = 6 if tier == "quick" else 512
         for key in fkeys:
             t = by_key[key]
             w = t["width"]
